@@ -85,20 +85,32 @@ func keyName(class string, rng *rand.Rand) string {
 func (e *env19) newHist(idx int, v vec19, seed int64) *hist19 {
 	rng := rand.New(rand.NewSource(seed*9176 + int64(idx)*131))
 	h := &hist19{v: v, idx: idx, names: map[string]string{}, values: map[string]string{}, secret: map[string]bool{}}
+	// a key class of the vector stands for one or more keys of that spelling: several ordinary keys next to the secret ones,
+	// so that nothing depends on the (randomised) order in which the daemon walks the parameter map
 	for _, c := range v.Keys {
-		var n string
-		for {
-			n = keyName(c, rng)
-			if _, dup := h.values[n]; !dup {
-				break
-			}
-		}
-		h.names[c] = n
-		mk := "MK" + randID(rng, 18)
-		h.values[n] = mk
-		h.secret[n] = secretClasses[c]
+		count := 1 + rng.Intn(3)
 		if secretClasses[c] {
-			e.secrets[mk] = fmt.Sprintf("history %d key %s", idx, n)
+			count = 1 + rng.Intn(2)
+		}
+		for j := 0; j < count; j++ {
+			var n string
+			for {
+				n = keyName(c, rng)
+				if _, dup := h.values[n]; !dup {
+					break
+				}
+			}
+			if j == 0 {
+				h.names[c] = n
+			} else {
+				h.names[c] += "," + n
+			}
+			mk := "MK" + randID(rng, 18)
+			h.values[n] = mk
+			h.secret[n] = secretClasses[c]
+			if secretClasses[c] {
+				e.secrets[mk] = fmt.Sprintf("history %d key %s", idx, n)
+			}
 		}
 	}
 	refused := v.Unit == "none"
@@ -502,8 +514,10 @@ func (e *env19) doOp(h *hist19, i int) {
 
 func classOf(h *hist19, key string) string {
 	for c, n := range h.names {
-		if n == key {
-			return c
+		for _, one := range strings.Split(n, ",") {
+			if one == key {
+				return c
+			}
 		}
 	}
 
@@ -555,7 +569,20 @@ func (e *env19) refusedBatch(hs []*hist19) {
 	f1, b1 := e.r1.Mark()
 	f2, b2 := e.r2.Mark()
 	for _, h := range hs {
-		e.submit(h)
+		// the same submission several times: whether it is refused must not depend on the order in which the parameter map is walked
+		for rep := 0; rep < 4; rep++ {
+			e.submit(h)
+			e.res.count("refused_submits")
+			nsec := 0
+			for _, isSec := range h.secret {
+				if isSec {
+					nsec++
+				}
+			}
+			if nsec > 0 && nsec < len(h.secret) {
+				e.res.count("refused_submits_secret_among_ordinary_keys")
+			}
+		}
 		e.res.mu.Lock()
 		e.res.Evaluations++
 		e.res.mu.Unlock()
